@@ -90,8 +90,9 @@ def check(rep, ctx):
                     elem_opt = inner if arr else outer
                     if kt == "uuid" and not elem_opt:
                         problems.append("uuid fields are modelled optional (all-zero UUID <-> None) but this one is not")
-                    if elem_opt and not tagged and kt not in NULLABLE_KAFKA:
-                        problems.append(f"{kt} has no wire-level null but the field is optional")
+                    if elem_opt and kt not in NULLABLE_KAFKA:
+                        problems.append(f"{kt} has no wire-level null but the field is optional" + (
+                            " (a tagged field that is absent takes the type's default, 0 -- None is not a value the encoding can carry)" if tagged else ""))
                     if arr and inner and kt != "uuid":
                         problems.append("array items are optional")
                     rep.check(R_N, not problems, construct=construct, stmt=field_stmt(f), message="; ".join(problems), **where)
